@@ -285,5 +285,24 @@ func genShapes(g *Gen, n int) {
 		for i := 0; i < 30; i++ {
 			g.line("CLIADDR %d s=%x", g.n(), g.patBytes(g.r.Intn(70)))
 		}
+		// a multi-byte character at every offset around the ten-byte blocks a base-58 decoder may cut the string into
+		b58 := "123456789ABCDEFGHJKLMNPQRSTUVWXYZabcdefghijkmnopqrstuvwxyz"
+		for _, ch := range []string{"\u00e9", "\u00ff", "\u00a0", "\u017f", "\u65e5", "\U0001f600"} {
+			for _, at := range []int{8, 9, 10, 11, 18, 19, 20, 29, 39} {
+				var sb strings.Builder
+				for i := 0; i < at; i++ {
+					if g.r.Chance(1, 2) {
+						sb.WriteByte('1')
+					} else {
+						sb.WriteByte(b58[g.r.Intn(len(b58))])
+					}
+				}
+				sb.WriteString(ch)
+				for i := g.r.Intn(4); i > 0; i-- {
+					sb.WriteByte(b58[g.r.Intn(len(b58))])
+				}
+				g.line("CLIADDR %d s=%x", g.n(), sb.String())
+			}
+		}
 	}
 }
